@@ -5,9 +5,12 @@ cos/sin of an angle are an abstract point (c, s) of the unit circle (pyvc.narr.t
 """
 import z3
 
+from pyvc import ext_C12
 from pyvc.narr import trig
 from pyvc.spec import Registry
 from pyvc.values import NArr, Sym, fresh_name, to_z3
+
+ext_C12.install()  # reduced-angle facts of cos / sin, copysign / mod / fmod / floor on real scalars (named library models, see pyvc/ext_C12.py)
 
 UT = "swcgeom/utils/transforms.py"
 GEO = "swcgeom/transforms/geometry.py"
@@ -213,8 +216,18 @@ def register_affine(Rg):
     def aff_obj(S, center):
         from swcgeom.transforms.geometry import AffineTransform
 
+        from pyvc.engine import Unsupported
+
         tm = NArr((4, 4), [S.real(f"m{r}{c}") for r in range(4) for c in range(4)], "real")
-        return S.obj(AffineTransform, tm=tm, center=center)
+        try:
+            # an arbitrary transform object = what the REAL constructor builds from an arbitrary matrix (fields a change adds to
+            # __init__ are there, with the constructor's values); __call__ may not write to it (`frozen`: any attribute store is the
+            # failed obligation safety/frame-attr-write), so every later call finds the object as the constructor left it
+            o = S.new(AffineTransform, tm, center)
+        except Unsupported:
+            o = S.obj(AffineTransform, tm=tm, center=center)
+        o.frozen = True
+        return o
 
     affine_pre = ("matrix-is-affine", lambda E, v, o: (lambda it: z3.And(R(it[12]) == 0, R(it[13]) == 0, R(it[14]) == 0, R(it[15]) == 1))(v["self"].fields["tm"].items))
     has_root = ("has-a-root", lambda E, v, o: (lambda t, j: z3.Exists([j], z3.And(j >= 0, j < nof(t), z3.Select(col(t, "pid").arr, j) == -1)))(v["x"], z3.Int(fresh_name("j"))))
@@ -258,6 +271,21 @@ def register_affine(Rg):
     def input_untouched(name):
         return (lambda E, v, o: tree_unchanged(v[name], o[name]))
 
+    def transform_object_untouched(E, v, o):
+        """a transform is a VALUE: applying it leaves the object exactly as it was (same attributes, same matrix entries, same centre), so
+        a second application -- to another tree -- meets the same contract"""
+        a, b = v["self"], o["self"]
+        if set(a.fields) != set(b.fields) or a.fields.get("center") != b.fields.get("center"):
+            return False
+        ta, tb = a.fields["tm"], b.fields["tm"]
+        if not isinstance(ta, NArr) or ta.shape != tb.shape:
+            return False
+        same = [R(x) == R(y) for x, y in zip(ta.items, tb.items)]
+        for k in a.fields:
+            if k not in ("tm", "center") and a.fields[k] is not b.fields[k] and a.fields[k] != b.fields[k]:
+                return False
+        return z3.And(*same)
+
     AFF.update(untouched=untouched, xyz_lengths=xyz_lengths, result_fresh=result_fresh, input_untouched=input_untouched)
 
     for center in ("origin", "root"):
@@ -274,7 +302,8 @@ def register_affine(Rg):
         },
         requires=[affine_pre, has_root],
         ensures=[("every-node-moved-by-the-stated-map-about-the-stated-centre", lambda E, v, o: moved("origin" if o["self"].fields["center"] == "origin" else "root")(E, v, o)),
-                 ("topology-types-radii-untouched", untouched), ("result-is-fresh", result_fresh)],
+                 ("topology-types-radii-untouched", untouched), ("result-is-fresh", result_fresh),
+                 ("transform-object-left-as-it-was-(no-state-kept-between-calls)", transform_object_untouched)],
     )
 
     def to_origin(E, v, o):
